@@ -58,3 +58,12 @@ Definition check_case_c04L (dics : list (string * string * list (string * Z))) (
   check_case_c04i dics fuel queries exacts
   && (let lexs := map (fun d => dec_lex (fst d)) dics in
       forallb (fun l => check_lattice B.the_cfg lexs (hex_bytes (fst (fst l))) (hex_bytes (snd (fst l))) (snd l)) lats).
+
+(* ... and the dictionary number of every entry of an exact-surface lookup as the public accessors report it:
+   accs = (word id, Morpheme::dictionary_id(), Morpheme::is_oov()) *)
+Definition check_case_c04M (dics : list (string * string * list (string * Z))) (fuel : nat)
+           (queries : list (string * list (list (N * N)))) (exacts : list (string * list N))
+           (lats : list (string * string * list (nat * list (N * N)))) (accs : list (N * Z * bool)) : bool :=
+  check_case_c04L dics fuel queries exacts lats
+  && forallb (fun a => Z.eqb (reported_dic (fst (fst a))) (snd (fst a)) && Bool.eqb (is_oov (fst (fst a))) (snd a)
+                       && Z.eqb (snd (fst a)) (Z.of_N (dic_of (fst (fst a))))) accs.
